@@ -435,6 +435,14 @@ def evDone (st : State) (id : Nat) (ok : Bool) : State :=
   { st with svc := st.svc.map fun b =>
       if b.id == id && b.state == .running then { b with state := if ok then .success else .failure } else b }
 
+/-- the merge request of `try_to_merge` raises something `PR.merge` does not handle (timeout, connection lost): GitHub may have applied
+the merge.  Since commit 62ab96f93 `try_to_merge` then forgets the target sha, sets `github_changed` and `state_changed` and re-raises
+(the pass is aborted).  Histories with such a step are replayed on the real code for the oracle only. -/
+def evMergeLost (st : State) : State := { st with sha := none, githubChanged := true, stateChanged := true }
+
+/-- the same step BEFORE commit 62ab96f93: the exception left everything as it was -/
+def evMergeLostOld (st : State) : State := st
+
 /-- which entry point was called: `notify_github_changed`, `notify_batch_changed`, `update` -/
 inductive Entry where
   | github | batch | all
